@@ -116,4 +116,32 @@ def load():
         "hooks at the mutation points (build tag verif); the enumeration of states between two hooks assumes a 4096-byte buffered writer and entry-by-entry recursive removal",
         "fault enumeration of crash points + TLC trace validation against the TLA+ Mailstore contract",
         "DESIGN.md 5/C11", "mailstore")
+    reg("C09", stores.c09, "model_checking",
+        "Linearizability against the TLA+ Mailstore contract is decided by TLC (LinTrace.tla: pending calls take effect at some point between invocation and response; TLC "
+        "searches all choices) on histories recorded from the real stores under concurrent use with the race detector on; crashes, race reports and hangs are attributed to the history.",
+        "schedules are sampled by the Go scheduler over repeated runs; real-time order from one atomic counter",
+        "TLC linearizability search over recorded concurrent histories against the TLA+ contract + race detector",
+        "DESIGN.md 5/C09", "mailstore")
+    from checks import dotcodec
+    reg("C02", dotcodec.c02, "exploration",
+        "TLC checks the dot-stuffing / un-stuffing / Canon / POP3 multi-line round-trip theorems of spec/DotCodec.tla for every string over the byte classes {DOT, CR, LF, NUL, HI, CH} "
+        "to a bounded length (GenDotCodec.tla) and enumerates every such string as a message body; each is spelled as bytes (seed-chosen representatives), sent behind a valid header block "
+        "and raw through a real SMTP session, together with special bodies (empty, no final newline, dot lines, lines around 64 KiB, MiB-sized bodies), and read back through "
+        "Store.Source(), REST /source, web UI /source and POP3 RETR on both back-ends; TLC evaluates AllInterfacesAgree, SourceIsHeadersPlusBody and SizeIsLength on every recorded "
+        "observation (DotCodecTrace.tla).  Exploration: TLA+ does not model bytes; the specification drives the enumeration, supplies the codecs at class level and judges recorded outputs.",
+        "trusts TLC, the driver and projections (harness/cmd/vh/dotcodec.go), the spelling of classes (checks/dotcodec.py), 64-bit sha256 prefixes of canonical forms computed independently in Go and Python; "
+        "byte values the class alphabet does not distinguish are covered only through seed-chosen representatives",
+        "TLC-enumerated byte-class strings concretised as message bodies + relations evaluated by TLC on projections of what the four read interfaces return",
+        "DESIGN.md 5/C02", "dotcodec")
+    from checks import lifecycle
+    reg("C19", lifecycle.c19, "model_checking",
+        "TLC checks the Lifecycle contract (spec/Lifecycle.tla, GenLifecycle.tla: NoNewSessionAfterShutdown, OpenSessionsCanFinish, AckMeansStored, QuitAppliesDeletions, "
+        "DrainedMeansQuiet / DrainReturnsOnlyWhenQuiet, and with fairness DrainEventuallyReturns, ServicesEventuallyStop) and the implementation-shaped LifecycleImpl.tla (accept loop, "
+        "spawn, wg.Add placement, listener close, Drain = wg.Wait) against the contract's properties through a refinement mapping; TLC then enumerates shutdown schedules (1-3 sessions "
+        "parked in every protocol state or held at the spawn gate x orderings of cancel, Drain, client continues / finishes / disconnects, gate release, new connection attempt), each is "
+        "played on a real smtp.Server / pop3.Server on loopback with real TCP clients, retention scanner and message hub on the same context, and TLC validates the recorded events "
+        "(one sequence counter under one mutex; Drain's return is an event of its own) against the contract with LifecycleTrace.tla.",
+        "trusts TLC, the driver (harness/cmd/vh/lifecycle.go), the spelling of stages (checks/lifecycle.py); Drain called after Start returned; 2-3 session schedules sampled by seed; hub wired to the store only in a dedicated group",
+        "TLA+ contract + implementation-shaped model (predicted counterexample) + TLC-generated schedules replayed through the spawn gate on real listeners + TLC trace validation",
+        "DESIGN.md 5/C19", "lifecycle")
     return REG
